@@ -157,12 +157,23 @@ struct identity_value_zero {
 
 template <typename T>
 struct identity_value_min {
-  constexpr T operator()() const { return std::numeric_limits<T>::min(); }
+  // identity of max: the least value of T (for floating types min() is the
+  // smallest positive value, not the least one)
+  constexpr T operator()() const {
+    return std::numeric_limits<T>::has_infinity
+               ? -std::numeric_limits<T>::infinity()
+               : std::numeric_limits<T>::lowest();
+  }
 };
 
 template <typename T>
 struct identity_value_max {
-  constexpr T operator()() const { return std::numeric_limits<T>::max(); }
+  // identity of min: the greatest value of T
+  constexpr T operator()() const {
+    return std::numeric_limits<T>::has_infinity
+               ? std::numeric_limits<T>::infinity()
+               : std::numeric_limits<T>::max();
+  }
 };
 
 //! Accumulator for T where accumulation is plus
